@@ -74,7 +74,13 @@ def c12_case(draw, max_tasks=8, ext=False):
         m = Model(spec)
         spec['ext'] = [dict(id=draw(st.sampled_from([100, m.order[0]])), start='2026-01-01T00:00:00', end='2026-01-02T00:00:00',
                             succ=[draw(st.sampled_from(m.order))])]
-    return dict(spec=spec)
+    # an edit between two calls on the SAME WBS object (the answer must follow the plan, not an earlier answer):
+    # ['nest', k, _] makes a task the child of its previous sibling - ids, values, links and the depth-first order all stay,
+    # only the hierarchy (who is a leaf, who inherits which dependency) changes; ['estimate', k, v] changes one value
+    edit = None
+    if not ext and draw(st.integers(0, 2)) == 0:
+        edit = [draw(st.sampled_from(['nest', 'nest', 'estimate'])), draw(st.integers(0, 30)), draw(st.sampled_from(pool))]
+    return dict(spec=spec, edit=edit)
 
 
 DYADIC = [1024, 2048, 4096, 0, 2 ** -20, 2 ** -14, 2048 - 2 ** -20, 4096 - 2 ** -20, 2048 + 2 ** -14, 512, 131072, 131072 - 2 ** -14]
@@ -141,6 +147,9 @@ def _check(case, res, spec, m):
                 summ = any(not m.is_leaf(u) or not m.is_leaf(v) for u, v in spec['links'])
                 sig = 'C12:result-differs-from-reference-critical-set(%s)' % ('summary-links' if summ else 'fractional' if frac else 'leaf-links-integers')
             res.v(sig, dict(got=sorted(ids), expected=sorted(crit), length=float(length)))
+    edited = _edit_and_ask_again(case, spec, m, w, objs, res)
+    if edited:
+        res.label('asked-again-after:' + edited)
     summ = any(not m.is_leaf(u) or not m.is_leaf(v) for u, v in spec['links'])
     frac = any(fr(t['estimate']).denominator != 1 for t in spec['tasks'] if m.is_leaf(t['id']))
     res.label('chains:%d' % min(chains, 3), 'summary-link' if summ else 'no-summary-link', 'fractional' if frac else 'integers',
@@ -149,6 +158,62 @@ def _check(case, res, spec, m):
     res.sample = dict(tasks=[[t['id'], t['parent'], t['estimate'], t['spent']] for t in spec['tasks']], links=spec['links'],
                       ext=spec.get('ext'), expected=sorted(crit), got=[t.id for t in got])
     return res
+
+
+def _acyclic(m):
+    leaves = [i for i in m.order if m.is_leaf(i)]
+    pre = {i: set(m.prereq_leaves(i)) for i in leaves}
+    done = set()
+    while len(done) < len(leaves):
+        ready = [i for i in leaves if i not in done and pre[i] <= done]
+        if not ready:
+            return False
+        done.update(ready)
+    return True
+
+
+def _edit_and_ask_again(case, spec, m, w, objs, res):
+    import copy
+    ed = case.get('edit')
+    if not ed or spec.get('ext') or res.viol:
+        return None
+    kind, k, val = ed
+    spec2 = copy.deepcopy(spec)
+    try:
+        if kind == 'nest':
+            cands = [(a, b) for g in [m.roots] + [m.children[i] for i in m.order] for a, b in zip(g, g[1:])]
+            if not cands:
+                return None
+            a, b = cands[k % len(cands)]
+            objs[b].parent = objs[a]
+            for t in spec2['tasks']:
+                if t['id'] == b:
+                    t['parent'] = a
+        else:
+            i = m.order[k % len(m.order)]
+            objs[i].estimate = val
+            for t in spec2['tasks']:
+                if t['id'] == i:
+                    t['estimate'] = val
+    except RuntimeError:
+        return None             # the edit itself was refused (a link between the two siblings): nothing to ask
+    m2 = Model(spec2)
+    if [t.id for t in w.tasks] != m2.order or any((t.parent.id if t.parent is not None else None) != m2.parent[t.id] for t in w.tasks):
+        return None             # the edit did not land the way this helper assumes: not judged here (C16 judges edits)
+    if not _acyclic(m2):
+        return None             # nesting closed a circle through the hierarchy (b now inherits a link from a task that waits for b)
+    crit2, length2, _ = reference(m2)
+    try:
+        got2 = list(w.critical_path())
+    except Exception as e:
+        res.v('C12:critical_path-raises-%s(after-%s-edit)' % (type(e).__name__, kind), dict(error=repr(e)[:200], edit=ed))
+        return kind
+    members = {id(t) for t in w.tasks}
+    ids2 = {t.id for t in got2}
+    if any(id(t) not in members or len(t.children) for t in got2) or len(got2) != len(ids2) or ids2 != crit2:
+        res.v('C12:result-after-an-edit-differs-from-reference(%s)' % kind,
+              dict(edit=ed, got=sorted(ids2), expected=sorted(crit2), length=float(length2)))
+    return kind
 
 
 def exhaustive(tier):
